@@ -199,7 +199,28 @@ PROPS["C09"] = {
     "assumptions": [TYPES, "the unchecked downcasts (Fetch::deref, get_mut, remove) are modelled as 'type tag equals key type => the cast is right'"],
 }
 
-TEXT = {}
+TEXT = {
+    "C01": "Proof: for every registration sequence (and, via Level, every dispatcher with batches nested to any depth) and every trace of its plan - every interleaving - two systems inside their windows at the same time have non-conflicting declarations; corollary C01_no_sibling_borrow_conflict (no sibling holds an incompatible guard when a system fetches). Tied to /repo by exact layout comparison (plan engine) and by feeding every recorded event log of real dispatches (pools 1-16, forced overlap) to the proved acceptor; implementation-side oracles give the failing input. PARTIAL for inputs of the open finding KF1 (thread-local systems inside a batch).",
+    "C02": "Proof: D A precedes F B in every trace whenever B was registered with A as a dependency (also transitively, also for sequential dispatch, also inside batches), for every registration sequence. Tied to /repo by layout comparison and by real dispatches in which dependencies are held inside run.",
+    "C03": "Proof: every system registered before a barrier finishes before any registered after it starts, in every trace; a repeated / leading / no-op barrier leaves the builder unchanged (definitional equalities). Tied by barrier-heavy layouts and traces.",
+    "C04": "Proof: every registered and thread-local system fetches and drops exactly once in every trace, k dispatches k times, partial dispatch calls run exactly their part, instances inside batches once per inner dispatch. Tied by run counters over sequences of dispatch / dispatch_seq / dispatch_par / dispatch_thread_local calls, the MultiDispatcher counting run, and the acceptor.",
+    "C05": "Proof: every trace of the parallel plan has the effect of the unique sequential trace, provided events of non-conflicting systems commute - which is proved for the harness's order-sensitive systems (C05_harness_commutes); repetition by induction. Tied by comparing real parallel dispatches with a sequentially dispatched twin and with the model's evaluation, with and without the parallel feature.",
+    "C06": "Proof by structural induction over the system-data type tree: fetch borrows exactly the reported present resources (multisets), fails iff a required resource is absent or a borrow conflicts and then releases everything, drop releases, reads/writes/setup are concatenation/composition over members. Tied by 229 real Rust types (all tuple arities 1-26, all member kinds at all positions, nestings, derived structs incl. member-generic ones) x presence patterns. Assumes parametricity of the generic tuple impls.",
+    "C07": "Proof: the accessor add_batch computes is exactly controller data + inner declarations; conflicts lift; Level/BodyOK compose so that isolation, order and exactly-once hold for dispatchers with batches nested to any depth, for the tagged builder the driver runs. Tied by batch-heavy layouts and traces. PARTIAL for KF1 inputs.",
+    "C08": "Proof: the borrow invariant (free / n shared guards / one exclusive guard) is preserved by every operation over every legal history; outcome_spec, panic_frame, drop_exact. Tied by random histories with a probe of every cell after every operation. PARTIAL: the many-thread clause assumes atomicity of AtomicRefCell (stress run with shadow counters only).",
+    "C09": "Proof: refinement of the world to a map ResId -> token (every operation commutes with the abstraction and answers what the map answers), type-tag invariant, mismatch panics leave the world unchanged, value accounting (each token in exactly one of world / returned / dropped). Tied by random histories incl. mismatching type arguments with drop counters.",
+    "C10": "Proof: every stage the code's insertion_target skips is justified by a conflicting earlier system or a dependency at/behind it (on the five tables of the code, for every registration sequence, after repair D3); compatible dependency-free systems share one stage; max_threads is the widest stage. Tied by exact layout comparison and max_threads().",
+    "C11": "Proof about a pool MODEL (assumption about rayon): with >= n workers n rendezvous systems always meet and never deadlock; with fewer they do deadlock. PARTIAL by nature: the tie is the complete enumeration of widths 2-16 x pool sizes x {user pool, default pool, batch-inner, async, foreign caller} with real rendezvous runs.",
+    "C12": "Proof: thread-local systems start after all staged systems, run in registration order, are assigned the caller's thread by the thread table the driver compares every event with; sendable iff no thread-local systems; KF1 is proved as a witness (C12_kf1_witness). Tied by traces with thread kinds, try_into_sendable, compile probes (Dispatcher !Send), the async dispatcher's wait. PARTIAL: open finding KF1.",
+    "C13": "Proof: setup / dispose reach exactly the systems of the layout, batches expanded, at any depth (dispose = setup after repair D2); setup never changes an existing resource, creates exactly the default-provided ones, is idempotent. Tied by hook counters, world diffs on pre-populated worlds, and the setup oracle over every system-data type.",
+    "C14": "Proof about every log the driver's panic-aware acceptor accepts: a panic is reported iff a system was unwound, nothing ordered after an unwound system starts, nothing starts twice, every opened window is closed; the acceptor accepts every declaratively legal execution. Tied by injecting a panic into every placed system in turn (run / fetch), payload, borrow probe, clean re-dispatch. PARTIAL: rayon's re-raise and unwinding are assumed; rayon may leave out unstarted siblings (modelled).",
+    "C15": "Proof over all interleavings of caller and background-job steps of the async state machine: accessor quiescence, running() truthfulness, no overtaking, thread-local systems only inside wait on the caller, each dispatch once; accepted logs are runs. Tied by gated real runs. PARTIAL: mpsc and rayon spawn are modelled.",
+    "C16": "Proof: every leaf once, seq order, par may overlap, reads/writes = concatenation over leaves, setup reaches leaves, Par::with's debug check fails iff a leaf-level conflict exists; trees that pass the checks are isolated. Tied by run-time assembled real Par/Seq trees (depth <= 5, fan-out <= 6), traces, debug-assertion panics.",
+    "C17": "Proof: the table invariant under any register history, get/get_mut specification, one next step and whole iteration (first-registration order, once each, exactly the registered present types, shared vs exclusive borrows), bad casts panic. Tied by nine implementing types incl. a wrong CastFrom, all presence subsets, exhaustive small scope.",
+    "C18": "Proof: add panics iff a dependency is unknown (first such) or a non-empty name is taken; every other registration succeeds; group size <= 4 < 5, running times <= 20, targets in bounds, for every registration sequence and every builder state reachable through accepted and rejected calls. Tied by a malformed stream at every position and deep funnels.",
+    "C19": "Proof: relabelled resources, permuted / duplicated declared lists, renamed systems, renumbered ids and re-tagged systems give identical tables for every registration sequence. Tied by transformed twins, a second process, and case-by-case comparison of the builds with and without the parallel feature.",
+    "C20": "Proof: the printed table is the executed table (lock-step), each registered system once, the text is the rendering of the name tree, the name choice is total (placeholder for unnamed systems, after repair D1). Tied by byte-for-byte comparison of the real Debug text with the model's and with the real executed layout.",
+}
 
 _PENDING = "check under construction in this round (model and engine designed in DESIGN.md §5; not yet registered)"
 NOT_APPLICABLE = [{"property_id": p, "reason": _PENDING} for p in
